@@ -132,7 +132,8 @@ theorem RelF.withVars_congr {m : Nat → Nat} {s : St} {rs : Ref.St} {fr : Nat} 
     simp [withVars]
   refine ⟨by rw [h.len, hlenb], fun i x => by rw [hkey]; exact h.vars i x, ⟨f0', hf0', hp0'.trans hp0, hfl0⟩, ?_, h.bottom,
     ⟨k, hc.congr hext (fun _ _ => rfl), ?_⟩, h.fscopes, h.heap, h.trace, ?_,
-    fun i x v hv => ValIn.mono (h.vok i x v hv) hgood, HeapIn.mono h.hok hgood⟩
+    fun i x v hv => ValIn.mono (h.vok i x v hv) hgood, HeapIn.mono h.hok hgood,
+    h.lz.mono (FnsKeep.of_fns_eq rfl) (Nat.le_refl _) (fun _ _ => rfl) hrext (fun _ _ => rfl) rfl (by simp [withVars])⟩
   · intro i f hf p hp
     rw [withVars_frames_get] at hf
     by_cases hc' : fr = i ∧ fr < rs.frames.length
@@ -142,7 +143,7 @@ theorem RelF.withVars_congr {m : Nat → Nat} {s : St} {rs : Ref.St} {fr : Nat} 
     · rw [if_neg hc'] at hf
       exact h.par i f (by rw [withVars_frames_get, if_neg hc']; exact hf) p hp
   · exact hfc.transfer (s := s) (s' := s) (withVars rs fr fr0 vb).frames.length (fun _ _ => rfl) hext (FnsKeep.of_fns_eq rfl)
-      (fun e he => Nat.lt_trans (hc.k_lt e he) hc.lt) rfl
+      (Nat.le_of_eq h.len) (Nat.le_refl _) (fun e he => Nat.lt_trans (hc.k_lt e he) hc.lt) rfl
   · intro name hn
     exact ⟨by rw [hkey]; exact (h.globals name hn).1, fun i hi => by rw [hkey]; exact (h.globals name hn).2 i hi⟩
 
